@@ -115,7 +115,7 @@ Record cfg_facts (cfg : config) : Prop := {
   cf_keys : map_keys cfg = NSelfFreevars;
   cf_sel : select_by cfg = NFactoryFreevars;
   cf_ft : ft_closure cfg = ClSelected;
-  cf_len : match len_check cfg with None => True | Some (a, b) => len_operand_ok a b = true end;
+  cf_len : exists a b, len_check cfg = Some (a, b) /\ len_operand_ok a b = true;
   cf_dg : defaults_guard cfg <> GNever;
   cf_kg : kwdefaults_guard cfg <> GNever;
   cf_wrap : no_future (wrap_module cfg) = wrap_expected;
@@ -134,7 +134,7 @@ Proof.
   - destruct (map_keys cfg), (select_by cfg), (ft_closure cfg); try discriminate; reflexivity.
   - destruct (map_keys cfg), (select_by cfg), (ft_closure cfg); try discriminate; reflexivity.
   - destruct (map_keys cfg), (select_by cfg), (ft_closure cfg); try discriminate; reflexivity.
-  - destruct (len_check cfg) as [[a b]|]; [assumption | exact I].
+  - destruct (len_check cfg) as [[a b]|]; [exists a, b; split; [reflexivity | assumption] | discriminate].
   - destruct (defaults_guard cfg); simpl in *; discriminate.
   - destruct (kwdefaults_guard cfg); simpl in *; discriminate.
   - apply (list_beq_eq _ _ mitem_beq_eq); assumption.
@@ -167,54 +167,45 @@ Section Instantiate.
   Hypothesis LEN : length cl = length fv.
 
   Lemma inst_ok : forall fc, inst_closure cfg fv cl ffv = Ok fc ->
-    length fc = length ffv /\ incl ffv fv
-    /\ (len_check cfg <> None -> Permutation ffv fv)
+    length fc = length ffv /\ Permutation ffv fv
     /\ forall n k, In (n, k) (combine ffv fc) -> In (n, k) (combine fv cl).
   Proof.
-    intros fc H. destruct (cfg_ok_facts cfg OK) as [K S F LC _ _ _ _ _ _ _ _].
-    unfold inst_closure in H. rewrite K, S, F in H. simpl in H.
+    intros fc H. destruct (cfg_ok_facts cfg OK) as [K S F [a [b [C LC]]] _ _ _ _ _ _ _ _].
+    unfold inst_closure in H. rewrite K, S, F, C in H. simpl in H.
     destruct (select (combine fv cl) ffv) as [sel|] eqn:E; [|discriminate].
     destruct (select_spec _ _ _ E) as [L P].
     assert (INC : incl ffv fv).
-    { intros n Hn. destruct (In_nth_error _ _ Hn) as [i Hi].
+    { intros n Hn.
       assert (exists k, In (n, k) (combine ffv sel)) as [k Hk].
-      { clear - Hn L. revert sel L; induction ffv as [|a r IH]; intros sel L; [contradiction|].
+      { clear - Hn L. revert sel L; induction ffv as [|x r IH]; intros sel L; [contradiction|].
         destruct sel as [|c cs]; [discriminate|]. destruct Hn as [Hn|Hn].
         - subst; exists c; left; reflexivity.
         - destruct (IH Hn cs) as [k Hk]; [simpl in L; lia|]. exists k; right; exact Hk. }
       apply P in Hk. apply dict_get_in in Hk. apply in_combine_l in Hk; exact Hk. }
-    destruct (len_check cfg) as [[a b]|] eqn:C.
-    - rewrite (len_check_meaning a b fv ffv cl sel LC L LEN) in H.
-      destruct (Nat.eqb (length ffv) (length fv)) eqn:Q; [|discriminate].
-      apply Nat.eqb_eq in Q. rewrite L, Nat.eqb_refl in H. inversion H; subst.
-      repeat split; auto.
-      + intros _. apply nodup_incl_length_perm; assumption.
-      + intros n k Hk. apply dict_get_in. apply P; exact Hk.
-    - rewrite L, Nat.eqb_refl in H. inversion H; subst.
-      repeat split; auto.
-      + intros X; exfalso; apply X; reflexivity.
-      + intros n k Hk. apply dict_get_in. apply P; exact Hk.
+    rewrite (len_check_meaning a b fv ffv cl sel LC L LEN) in H.
+    destruct (Nat.eqb (length ffv) (length fv)) eqn:Q; [|discriminate].
+    apply Nat.eqb_eq in Q. rewrite L, Nat.eqb_refl in H. inversion H; subst.
+    split; [exact L|]. split; [apply nodup_incl_length_perm; assumption|].
+    intros n k Hk. apply dict_get_in. apply P; exact Hk.
   Qed.
 
   Lemma inst_perm_succeeds : Permutation ffv fv -> exists fc, inst_closure cfg fv cl ffv = Ok fc.
   Proof.
-    intros PM. destruct (cfg_ok_facts cfg OK) as [K S F LC _ _ _ _ _ _ _ _].
-    unfold inst_closure. rewrite K, S, F. simpl.
+    intros PM. destruct (cfg_ok_facts cfg OK) as [K S F [a [b [C LC]]] _ _ _ _ _ _ _ _].
+    unfold inst_closure. rewrite K, S, F, C. simpl.
     destruct (select_some (combine fv cl) ffv) as [sel E].
     { intros n Hn X. apply dict_get_none in X. apply X. rewrite map_fst_combine by exact LEN.
       apply (Permutation_in _ PM); exact Hn. }
     rewrite E. destruct (select_spec _ _ _ E) as [L _].
-    destruct (len_check cfg) as [[a b]|].
-    - rewrite (len_check_meaning a b fv ffv cl sel LC L LEN).
-      replace (Nat.eqb (length ffv) (length fv)) with true
-        by (symmetry; apply Nat.eqb_eq; apply Permutation_length; exact PM).
-      rewrite L, Nat.eqb_refl. eexists; reflexivity.
-    - rewrite L, Nat.eqb_refl. eexists; reflexivity.
+    rewrite (len_check_meaning a b fv ffv cl sel LC L LEN).
+    replace (Nat.eqb (length ffv) (length fv)) with true
+      by (symmetry; apply Nat.eqb_eq; apply Permutation_length; exact PM).
+    rewrite L, Nat.eqb_refl. eexists; reflexivity.
   Qed.
 
   Lemma inst_keyerror : ~ incl ffv fv -> inst_closure cfg fv cl ffv = Err KeyError.
   Proof.
-    intros NI. destruct (cfg_ok_facts cfg OK) as [K S F LC _ _ _ _ _ _ _ _].
+    intros NI. destruct (cfg_ok_facts cfg OK) as [K S F _ _ _ _ _ _ _ _ _].
     unfold inst_closure. rewrite K, S, F. simpl.
     assert (exists n, In n ffv /\ ~ In n fv) as [n [H1 H2]].
     { clear - NI. induction ffv as [|a r IH].
@@ -227,16 +218,15 @@ Section Instantiate.
     apply dict_get_none. rewrite map_fst_combine by exact LEN. exact H2.
   Qed.
 
-  Lemma inst_valueerror : incl ffv fv -> ~ Permutation ffv fv -> len_check cfg <> None ->
+  Lemma inst_valueerror : incl ffv fv -> ~ Permutation ffv fv ->
     inst_closure cfg fv cl ffv = Err ValueError.
   Proof.
-    intros INC NP LCN. destruct (cfg_ok_facts cfg OK) as [K S F LC _ _ _ _ _ _ _ _].
-    unfold inst_closure. rewrite K, S, F. simpl.
+    intros INC NP. destruct (cfg_ok_facts cfg OK) as [K S F [a [b [C LC]]] _ _ _ _ _ _ _ _].
+    unfold inst_closure. rewrite K, S, F, C. simpl.
     destruct (select_some (combine fv cl) ffv) as [sel E].
     { intros n Hn X. apply dict_get_none in X. apply X. rewrite map_fst_combine by exact LEN.
       apply INC; exact Hn. }
     rewrite E. destruct (select_spec _ _ _ E) as [L _].
-    destruct (len_check cfg) as [[a b]|]; [|exfalso; apply LCN; reflexivity].
     rewrite (len_check_meaning a b fv ffv cl sel LC L LEN).
     destruct (Nat.eqb (length ffv) (length fv)) eqn:Q; [|reflexivity].
     exfalso; apply NP. apply Nat.eqb_eq in Q. apply nodup_incl_length_perm; assumption.
@@ -305,11 +295,11 @@ Proof.
   - apply IH.
 Qed.
 
-Lemma erased_no_event : forall cfg, fst (eval_dexpr (erased_expr cfg)) = [].
-Proof. intros cfg; unfold erased_expr; destruct (erase_const cfg); reflexivity. Qed.
+Lemma erased_no_event : forall v, fst (eval_dexpr (erased_of v)) = [].
+Proof. destruct v; reflexivity. Qed.
 
-Lemma erased_value : forall cfg, snd (eval_dexpr (erased_expr cfg)) = VNone \/ snd (eval_dexpr (erased_expr cfg)) = VConst.
-Proof. intros cfg; unfold erased_expr; destruct (erase_const cfg); simpl; auto. Qed.
+Lemma erased_value : forall v, snd (eval_dexpr (erased_of v)) = VNone \/ snd (eval_dexpr (erased_of v)) = VConst.
+Proof. destruct v; simpl; auto. Qed.
 
 Lemma concat_all_nil : forall (A : Type) (l : list (list A)), (forall x, In x l -> x = []) -> concat l = [].
 Proof.
@@ -332,7 +322,7 @@ Proof.
   unfold eval_def, erase. simpl.
   assert (D : s_defaults (erase cfg s) = map (fun _ => erased_expr cfg) (s_defaults s)).
   { unfold erase; simpl. destruct (erase_defaults cfg); try reflexivity. exfalso; apply ED; reflexivity. }
-  assert (K : s_kwdefaults (erase cfg s) = map (option_map (fun _ => erased_expr cfg)) (s_kwdefaults s)).
+  assert (K : s_kwdefaults (erase cfg s) = map (option_map (fun _ => erased_kwexpr cfg)) (s_kwdefaults s)).
   { unfold erase; simpl. destruct (erase_kwdefaults cfg); try reflexivity. exfalso; apply EK; reflexivity. }
   unfold erase in D, K; simpl in D, K. rewrite D, K. rewrite kw_pairs_map.
   rewrite !map_map. simpl. rewrite app_nil_r.
@@ -434,8 +424,8 @@ Lemma cells_lemma : forall cfg o e ffv c, cfg_ok cfg = true -> e_level e = 2 ->
   (forall s, wrap_scopes cfg e (o_freevars o) = Some s -> forall n, In n ffv <-> In n (model_ffv s)) ->
   convert cfg o e ffv = Ok c ->
   let orig_cells := combine (o_freevars o) (o_closure o) in
-  (forall n, In n ffv -> exists k, In (n, COrig k) (c_closure c) /\ In (n, k) orig_cells)
-  /\ (len_check cfg <> None -> Permutation ffv (o_freevars o))
+  (forall n, In n (o_freevars o) -> exists k, In (n, COrig k) (c_closure c) /\ In (n, k) orig_cells)
+  /\ Permutation ffv (o_freevars o)
   /\ (forall n k, In (n, COrig k) (c_closure c) -> In (n, k) orig_cells)
   /\ (forall n n', In (n, CFresh n') (c_closure c) -> n' = n /\ In n (e_extra e ++ [e_entity e]))
   /\ NoDup (map fst (c_closure c)).
@@ -448,14 +438,14 @@ Proof.
   assert (CC : c_closure c = cells).
   { subst c. destruct (eval_def (erase cfg (o_sig o)) []) as [[? ?] ?]; reflexivity. }
   rewrite CC. clear E CC.
-  destruct (inst_ok cfg H _ _ _ NDF LEN fc I) as [L [INC [PM BY]]].
+  destruct (inst_ok cfg H _ _ _ NDF LEN fc I) as [L [PM BY]].
   destruct (entity_closure_spec _ _ _ _ EC) as [MF SP].
   specialize (FFV s (wrap_scopes_ok cfg e (o_freevars o) H)).
-  repeat split.
-  - intros n Hn. apply FFV in Hn. unfold model_ffv in Hn. apply (proj1 (dedup_In _ _)) in Hn.
+  split; [|split; [exact PM|split; [|split]]].
+  - intros n Hn0. assert (Hn : In n ffv) by (apply (Permutation_in _ (Permutation_sym PM)); exact Hn0).
+    apply FFV in Hn. unfold model_ffv in Hn. apply (proj1 (dedup_In _ _)) in Hn.
     apply filter_In in Hn. destruct Hn as [R Q]. apply andb_true_iff in Q. destruct Q as [Q1 Q2].
     apply negb_true_iff in Q1.
-    (* n is referenced by the entity itself *)
     assert (U : In n (e_unbound e)).
     { simpl in R. apply in_app_or in R. destruct R as [R|[R|[]]]; [exact R|].
       exfalso. subst n. apply mem_false in Q1. apply Q1. simpl. apply in_or_app; right; left; reflexivity. }
@@ -466,11 +456,10 @@ Proof.
       exists b; exact E2. }
     destruct (SP _ _ Hr) as [[X _]|[_ [k [X Y]]]]; [rewrite X in Q1; discriminate|].
     subst r. exists k. split; [exact Hr | apply BY; exact Y].
-  - exact PM.
   - intros n k Hk. destruct (SP _ _ Hk) as [[_ X]|[_ [k' [X Y]]]]; [discriminate|].
     inversion X; subst. apply BY; exact Y.
-  - destruct (SP _ _ H0) as [[_ X]|[_ [k' [X _]]]]; [inversion X; reflexivity | discriminate].
-  - destruct (SP _ _ H0) as [[X _]|[_ [k' [X _]]]]; [apply mem_In in X; exact X | discriminate].
+  - intros n n' Hk. destruct (SP _ _ Hk) as [[X Y]|[_ [k' [X _]]]]; [|discriminate].
+    inversion Y; subst. split; [reflexivity | apply mem_In in X; exact X].
   - rewrite MF. apply dedup_NoDup.
 Qed.
 
